@@ -4,9 +4,11 @@ import "os"
 
 func init() {
 	register(&propDef{ID: "C20", Title: "Floating-IP configuration and IP ranges decode, validate and round-trip",
-		Explanation: "Decides: (R1) the order/merge test of fipCheck compares IPToInt values without a 32-bit x±c operand (cannot wrap at 255.255.255.255), both ends of every range are tested against the pool subnet, and every 'bad' edge reaches only error returns; (R2) a pool decodes successfully only through fipCheck, an unparsable range / missing gateway / missing subnet rejects the whole pool, ParseIPRange rejects first > last; (R3) a failed decode or failed ConfigurePool leaves the remembered configuration untouched (C05.R5). (R6) (*IPRange).UnmarshalJSON returns nil only after storing the parsed range behind ParseIPRange(..) != nil, and the ConfigurePool walk that fills the unallocated table returns false on every path; (R4) ParseIPRange consumes the whole string (split bounded to the parts parsed), and walkIPRanges skips a range only on first > last — for every other range the callback is reached, so no address value is special to the enumerator. Does not decide size/enumeration/membership agreement beyond that, nor encode∘decode = id (value laws over all inputs). (R7) every return of IPRange.Size is (f(Last) - f(First)) + 1, or the constant 0 behind the len()==0 test: no case distinction on the operands. (R3, extended) a streaming (*json.Decoder).Decode of the configuration must be followed by a test for trailing data. (R8) a module type with both MarshalJSON and UnmarshalJSON that is held by value somewhere (field, element or map value of the bare type) has MarshalJSON in the value's method set. (R9) bound comparisons of the Contains functions are inclusive and not computed by 32-bit arithmetic.",
+		Explanation: "Decides: (R1) the order/merge test of fipCheck compares IPToInt values without a 32-bit x±c operand (cannot wrap at 255.255.255.255), both ends of every range are tested against the pool subnet, and every 'bad' edge reaches only error returns; (R2) a pool decodes successfully only through fipCheck, an unparsable range / missing gateway / missing subnet rejects the whole pool, ParseIPRange rejects first > last; (R3) a failed decode or failed ConfigurePool leaves the remembered configuration untouched (C05.R5). (R6) (*IPRange).UnmarshalJSON returns nil only after storing the parsed range behind ParseIPRange(..) != nil, and the ConfigurePool walk that fills the unallocated table returns false on every path; (R4) ParseIPRange consumes the whole string (split bounded to the parts parsed), and walkIPRanges skips a range only on first > last — for every other range the callback is reached, so no address value is special to the enumerator. Does not decide size/enumeration/membership agreement beyond that, nor encode∘decode = id (value laws over all inputs). (R7) every return of IPRange.Size is (f(Last) - f(First)) + 1, or the constant 0 behind the len()==0 test: no case distinction on the operands. (R3, extended) a streaming (*json.Decoder).Decode of the configuration must be followed by a test for trailing data. (R8) a module type with both MarshalJSON and UnmarshalJSON that is held by value somewhere (field, element or map value of the bare type) has MarshalJSON in the value's method set. (R9) bound comparisons of the Contains functions are inclusive and not computed by 32-bit arithmetic. (R10) the decode target of the configmap value in ensureIPAMConf is a fresh local.",
 		Assumptions: []string{"CFG paths"},
 		Run: func(c *Ctx) {
+			c.Rule("C20.R10", "the configmap value is decoded into a fresh value", 1)
+			ruleConfigDecodedIntoFreshValue(c, "C20.R10")
 			c.Rule("C20.R1", "range checks cannot wrap and reject on every bad edge; successful decode only through fipCheck", 5)
 			ruleConfigDecode(c, "C20.R1")
 			c.Rule("C20.R4", "range strings are parsed whole; the enumerator skips a range only when it is inverted", 1)
@@ -28,9 +30,13 @@ func init() {
 
 func init() {
 	register(&propDef{ID: "C18", Title: "No request, watched object or configuration can crash or wedge a daemon",
-		Explanation: "Decides four families of necessary conditions, each exact on its instances: (R1) results of module functions that can return (nil, nil) (found automatically; through interface dispatch too) are dereferenced only behind a nil test of the same value; (R2) the optional fields policy.ingressRule / policy.egressRule are dereferenced only behind a nil test of the same access path; (R3) no loop continues on `i <= bound` with i++ on a fixed-width counter, and the IP range walk increments only while first != last; (R4) every lock acquisition is released on every return (explicitly or by defer), every lock-wrapper releaser is deferred immediately, the lock-order graph is acyclic and no lock class is re-acquired while held; (R5) the policy name table has one entry per declared policy; (R7) in the pool decoder every pointer decoded from JSON (pointer fields, elements of slices of pointers) is dereferenced only behind a nil test; (R11) at every decode call of an input surface in pkg/ (json.Unmarshal, Decoder.Decode, restful ReadEntity; 5 named sites that read galaxy's own state files or test data are exempt) the pointers a JSON null or a missing key leaves nil — the decoded pointer itself for a **T target, elements of slices / values of maps of pointers, pointer fields of module-defined structs without a custom decoder — are followed through locals, arguments (static, interface and func-field callees), results and conversions, and every dereference is reachable only through the non-nil edge of a test of the same access path, behind a validation loop whose nil edge leaves the function, or behind a caller-side test of the field; (R6) the page/size query parameters are returned by their parsers only inside a constant range (their product feeds a slice bound). (R8) the policy rule slices are index-aligned with the spec; (R9) module-wide, every index of the form x+c (c>0) is compared — that very value, or x against len-c — with a slice length on an edge dominating the access (one named exemption); (R13) every dereference of an entry of ByKeyAndIPRanges(key, ranges) — nil where the key holds no ip in that range — is behind a nil test of that entry, a loop that leaves the function on a nil entry, or the `len(ranges) == 0` edge (dense answer); (R12) in pkg/ every constant index into a slice or string is covered by a dominating length test of that slice (or the Len() of the set a List() was made from), is [0] of strings.Split, or is one of 10 named sites; (R10) a failed release event is re-queued only after its retry counter was stored incremented and only below a constant bound. Does not decide general index/slice bounds, type assertions, division, recursion depth, general termination, or panics inside dependencies. (R14) every self-recursive closure of pkg/ipam/floatingip hands on its own visited-set parameter, and an Insert into it precedes the recursive call on every path (termination of the range matching). (R15) where a function defers (*sync.WaitGroup).Done, no return is reachable before the defer is registered. (R4, extended) the lock-order graph also has an edge A -> B when, inside one function, an acquisition of A reaches an acquisition of B without passing an explicit release of A (a lock taken on one branch only is dropped by the must-hold analysis but MAY be held).",
+		Explanation: "Decides four families of necessary conditions, each exact on its instances: (R1) results of module functions that can return (nil, nil) (found automatically; through interface dispatch too) are dereferenced only behind a nil test of the same value; (R2) the optional fields policy.ingressRule / policy.egressRule are dereferenced only behind a nil test of the same access path; (R3) no loop continues on `i <= bound` with i++ on a fixed-width counter, and the IP range walk increments only while first != last; (R4) every lock acquisition is released on every return (explicitly or by defer), every lock-wrapper releaser is deferred immediately, the lock-order graph is acyclic and no lock class is re-acquired while held; (R5) the policy name table has one entry per declared policy; (R7) in the pool decoder every pointer decoded from JSON (pointer fields, elements of slices of pointers) is dereferenced only behind a nil test; (R11) at every decode call of an input surface in pkg/ (json.Unmarshal, Decoder.Decode, restful ReadEntity; 5 named sites that read galaxy's own state files or test data are exempt) the pointers a JSON null or a missing key leaves nil — the decoded pointer itself for a **T target, elements of slices / values of maps of pointers, pointer fields of module-defined structs without a custom decoder — are followed through locals, arguments (static, interface and func-field callees), results and conversions, and every dereference is reachable only through the non-nil edge of a test of the same access path, behind a validation loop whose nil edge leaves the function, or behind a caller-side test of the field; (R6) the page/size query parameters are returned by their parsers only inside a constant range (their product feeds a slice bound). (R8) the policy rule slices are index-aligned with the spec; (R9) module-wide, every index of the form x+c (c>0) is compared — that very value, or x against len-c — with a slice length on an edge dominating the access (one named exemption); (R13) every dereference of an entry of ByKeyAndIPRanges(key, ranges) — nil where the key holds no ip in that range — is behind a nil test of that entry, a loop that leaves the function on a nil entry, or the `len(ranges) == 0` edge (dense answer); (R12) in pkg/ every constant index into a slice or string is covered by a dominating length test of that slice (or the Len() of the set a List() was made from), is [0] of strings.Split, or is one of 10 named sites; (R10) a failed release event is re-queued only after its retry counter was stored incremented and only below a constant bound. Does not decide general index/slice bounds, type assertions, division, recursion depth, general termination, or panics inside dependencies. (R14) every self-recursive closure of pkg/ipam/floatingip hands on its own visited-set parameter, and an Insert into it precedes the recursive call on every path (termination of the range matching). (R15) where a function defers (*sync.WaitGroup).Done, no return is reachable before the defer is registered. (R4, extended) the lock-order graph also has an edge A -> B when, inside one function, an acquisition of A reaches an acquisition of B without passing an explicit release of A (a lock taken on one branch only is dropped by the must-hold analysis but MAY be held). (R16) every PolicyStr argument is the result of parseReleasePolicy / ConvertReleasePolicy or a constant 0..2, here or at every caller. (R17) in peerRule the next iteration is reached from the err == nil edge of peerTable without a store to ipTable / netTable / entries only through the set-type tests.",
 		Assumptions: []string{"CFG paths; no value correlation (one listed exemption relies on one)"},
 		Run: func(c *Ctx) {
+			c.Rule("C18.R16", "PolicyStr is given a policy in 0..2", 1)
+			rulePolicyStrArgBounded(c, "C18.R16")
+			c.Rule("C18.R17", "a resolved peer is always recorded in the rule", 1)
+			ruleResolvedPeerRecorded(c, "C18.R17")
 			c.Rule("C18.R1", "optional results checked", 4)
 			ruleOptionalResults(c, "C18.R1")
 			c.Rule("C18.R2", "optional fields checked", 7)
